@@ -1487,7 +1487,8 @@ class PythonTuple(PythonGenericType):
 class PythonTypedDict(PythonGenericType):
     """A datatype to support python generics."""
 
-    type = TypedDict  # type: ignore[assignment]
+    # TypedDict is a function: keep it from binding to the instance
+    type = staticmethod(TypedDict)  # type: ignore[assignment]
 
     def __init__(  # pylint:disable=super-init-not-called
         self,
@@ -1512,7 +1513,8 @@ class PythonTypedDict(PythonGenericType):
 class PythonNamedTuple(PythonGenericType):
     """A datatype to support python generics."""
 
-    type = NamedTuple
+    # NamedTuple is a function: keep it from binding to the instance
+    type = staticmethod(NamedTuple)  # type: ignore[assignment]
 
     def __init__(  # pylint:disable=super-init-not-called
         self,
